@@ -150,6 +150,7 @@ func (x *Exec) havocFrame(st *State, fr []frameEntry, why string) {
 			r := fmt.Sprintf("r!q%d", x.qn)
 			x.vc.assume(T(SBool, "(forall ((%s Ref)) (! (=> (select %s %s) (select %s %s)) :pattern ((select %s %s))))", r, old.S, r, nw.S, r, nw.S, r), "allocation is monotone across call")
 			st.heaps[allocHeap] = nw
+			x.paramsStayAllocated(nw)
 		case f.ghost != "":
 			st.ghosts[f.ghost] = x.vc.fresh("G_"+f.ghost+"_call", x.ghostGet(st, f.ghost).Sort)
 		default:
@@ -391,7 +392,7 @@ func (x *Exec) argValue(a ssa.Value, callee *ssa.Function, st *State) Term {
 			case *ssa.FieldAddr, *ssa.IndexAddr:
 				return x.loadAddr(st, x.resolveAddr(a))
 			case *ssa.Alloc:
-				if !x.escapes[a.(*ssa.Alloc)] && !a.(*ssa.Alloc).Heap {
+				if !x.escapes[a.(*ssa.Alloc)] {
 					return x.loadAddr(st, x.resolveAddr(a))
 				}
 			}
@@ -895,6 +896,12 @@ func (x *Exec) verify() {
 		x.params[name] = SVal{T: c, Ty: goT(t)}
 		if s == SRef {
 			x.vc.assume(or(eq(c, tNil), sel(alloc0, c)), "parameter refers to an allocated object")
+			x.paramRefs = append(x.paramRefs, c)
+		}
+		if s == SSlice {
+			x.vc.assume(or(eq(sliceRef(c), tNil), sel(alloc0, sliceRef(c))), "parameter slice refers to an allocated backing array")
+			x.paramRefs = append(x.paramRefs, sliceRef(c))
+			x.sliceInv(c)
 		}
 		x.observe = append(x.observe, Observation{Label: "param " + name, T: c})
 	}
